@@ -510,7 +510,7 @@ def run(ctx: Context) -> None:
     r07i(ctx)
     common.optional_dereferences(
         ctx, "R07j", "no parameter or local of a rule or of the plugin manager that may be None is dereferenced unguarded on any path",
-        lambda rel: rel.startswith(("pymarkdown/plugins/", "pymarkdown/plugin_manager/")), 15,
+        lambda rel: rel.startswith(("pymarkdown/plugins/", "pymarkdown/plugin_manager/")), 100,
     )
     from sa.rules import c13
 
